@@ -363,16 +363,17 @@ def buildTitle (q : Req) : Bytes :=
   let sym := if q.isGroup then Gen.NewBoard.symbolGroup else Gen.NewBoard.symbolBoard
   cls ++ [32] ++ copyInto 2 sym ++ copyInto 42 q.btitle
 
-/-- the attribute rules of `mNewbrd`. -/
-def buildAttr (q : Req) : Nat :=
+/-- the attribute word after the BRD_CPLOG / BRD_GROUPBOARD rules of `mNewbrd`. -/
+def attr1 (q : Req) : Nat :=
   let a0 := if Gen.NewBoard.defaultAutoCpLog then q.attr ||| BRD_CPLOG else q.attr
-  let a1 := if q.isGroup then clearBits (a0 ||| BRD_GROUP) BRD_CPLOG else clearBits a0 BRD_GROUP
-  if !hasBit q.ulevel PERM_BOARD || hasBit a1 BRD_HIDE then clearBits a1 BRD_POSTMASK else a1
+  if q.isGroup then clearBits (a0 ||| BRD_GROUP) BRD_CPLOG else clearBits a0 BRD_GROUP
 
-def buildLevel (q : Req) : Nat :=
-  let a0 := if Gen.NewBoard.defaultAutoCpLog then q.attr ||| BRD_CPLOG else q.attr
-  let a1 := if q.isGroup then clearBits (a0 ||| BRD_GROUP) BRD_CPLOG else clearBits a0 BRD_GROUP
-  if !hasBit q.ulevel PERM_BOARD || hasBit a1 BRD_HIDE then 0 else q.level
+/-- `!user.UserLevel.HasUserPerm(PERM_BOARD) || brdAttr&BRD_HIDE != 0`: post-mask and level are dropped. -/
+def restricted (q : Req) : Bool := !hasBit q.ulevel PERM_BOARD || hasBit (attr1 q) BRD_HIDE
+
+def buildAttr (q : Req) : Nat := if restricted q then clearBits (attr1 q) BRD_POSTMASK else attr1 q
+
+def buildLevel (q : Req) : Nat := if restricted q then 0 else q.level
 
 /-- the header `mNewbrd` hands to `addBoardRecord`, given the sanitised moderator string. -/
 def buildRec (q : Req) (bm : Bytes) : Rec :=
@@ -400,6 +401,17 @@ def summaryEffect (s : State) (q : Req) (bid : Nat) : State :=
     { s with cache := s.cache.set (bid - 1) { r with attr := r.attr ||| BRD_POSTMASK } }
   else s
 
+/-- does `boards/<c>` exist for the first byte of the name? -/
+def hasLetter (letters : List Nat) (name : Bytes) : Bool := letters.contains (name.headD 0)
+
+/-- does `boards/<c>/<name>` exist? -/
+def hasDir (dirs : List Bytes) (name : Bytes) : Bool := dirs.contains (cstr name)
+
+/-- `groupOp`'s verdict read on a list of headers (the shared copy in `NewBoard`, the table in the
+specification): PERM_BOARD, or named in the moderator string of the parent `clsBid`. -/
+def groupOpOf (hdrs : List Rec) (q : Req) : Bool :=
+  hasBit q.ulevel PERM_BOARD || isUBM q.user (hdrs.getD (q.cls.toNat - 1) Rec.zero).bm
+
 /-- does `mNewbrd` remove the directory again when `addBoardRecord` fails?  (a fact of the source) -/
 def rmdirOnFail : Bool := Gen.NewBoard.mNewbrdCalls.contains "os.Remove"
 
@@ -415,8 +427,8 @@ def mNewbrd (srt : Sorter) (s : State) (q : Req) : State × M Res :=
   if b > 0 then (s, .ok .nameExists)
   else
     let dn := cstr q.name
-    if !s.letters.contains (q.name.headD 0) then (s, .ok .mkdirNoent)
-    else if s.dirs.contains dn then (s, .ok .mkdirExist)
+    if !hasLetter s.letters q.name then (s, .ok .mkdirNoent)
+    else if hasDir s.dirs q.name then (s, .ok .mkdirExist)
     else
       let s1 := { s with dirs := s.dirs ++ [dn] }
       let (s2, r) := addBoardRecord srt s1 (buildRec q (sanitizeBMs s.users q.bms))
@@ -429,8 +441,7 @@ def mNewbrd (srt : Sorter) (s : State) (q : Req) : State × M Res :=
 def newBoard (srt : Sorter) (s : State) (q : Req) : State × M Res :=
   if !validBid q.cls then (s, .ok .invalidBid)
   else
-    let clsBoard := s.cache.getD (q.cls.toNat - 1) Rec.zero
-    let isGroupOp := hasBit q.ulevel PERM_BOARD || isUBM q.user clsBoard.bm
+    let isGroupOp := groupOpOf s.cache q            -- clsBoard = GetBCache(clsBid)
     if !hasBit q.ulevel PERM_BOARD && !isGroupOp then (s, .ok .notPermitted)
     else mNewbrd srt s q
 
@@ -456,11 +467,9 @@ def nameTaken (t : List Rec) (n : Bytes) : Bool := t.any fun r => occupied r && 
 
 def hasVacant (t : List Rec) : Bool := t.any fun r => !occupied r
 
-/-- the moderator string of the parent (class) board; a parent beyond the table has none. -/
-def parentBM (t : List Rec) (cls : Int) : Bytes := (t.getD (cls.toNat - 1) Rec.zero).bm
-
-/-- PERM_BOARD, or group operator: named in the parent's moderator string. -/
-def permitted (t : List Rec) (q : Req) : Bool := hasBit q.ulevel PERM_BOARD || isUBM q.user (parentBM t q.cls)
+/-- PERM_BOARD, or group operator: named in the moderator string of the parent (a parent beyond the table has
+no moderators). -/
+def permitted (t : List Rec) (q : Req) : Bool := groupOpOf t q
 
 /-- the header the creation rules prescribe for a request. -/
 def normalise (users : List Bytes) (q : Req) : Rec := buildRec q (sanitizeBMs users q.bms)
@@ -471,8 +480,8 @@ def specDecide (letters : List Nat) (dirs : List Bytes) (t : List Rec) (q : Req)
   else if !permitted t q then some .notPermitted
   else if !validNameSpec q.name then some .invalidName
   else if nameTaken t q.name then some .nameExists
-  else if !letters.contains (q.name.headD 0) then some .mkdirNoent
-  else if dirs.contains (cstr q.name) then some .mkdirExist
+  else if !hasLetter letters q.name then some .mkdirNoent
+  else if hasDir dirs q.name then some .mkdirExist
   else if !hasVacant t && t.length ≥ MAXB then some .tooMany
   else none
 
@@ -486,6 +495,29 @@ def SpecStep (users : List Bytes) (letters : List Nat) (t : List Rec) (d : List 
   | none => ∃ k, res = .ok (k + 1) ∧ d' = d ++ [cstr q.name] ∧
       ((k < t.length ∧ (∃ r, t[k]? = some r ∧ occupied r = false) ∧ t' = t.set k (normalise users q)) ∨
        (hasVacant t = false ∧ k = t.length ∧ t' = t ++ [normalise users q]))
+
+/-- a history on the abstract table: the answers, the final table and the final set of directories. -/
+inductive SpecRun (users : List Bytes) (letters : List Nat) :
+    List Rec → List Bytes → List Req → List Res → List Rec → List Bytes → Prop
+  | nil (t : List Rec) (d : List Bytes) : SpecRun users letters t d [] [] t d
+  | cons {t d q res t1 d1 qs rs t2 d2} : SpecStep users letters t d q res t1 d1 →
+      SpecRun users letters t1 d1 qs rs t2 d2 → SpecRun users letters t d (q :: qs) (res :: rs) t2 d2
+
+/-- the answers of the model along a history. -/
+def results (srt : Sorter) (s : State) : List Req → List (M Res)
+  | [] => []
+  | q :: qs => (newBoard srt s q).2 :: results srt (newBoard srt s q).1 qs
+
+/-- would `IsBMCache` call the caller a moderator of a board whose moderator string is `bm`? -/
+def callerIsMod (users : List Bytes) (q : Req) (bm : Bytes) : Bool :=
+  if !hasBit q.ulevel PERM_BASIC || q.uid = 0 || q.uid = -1 then false
+  else if !(hasBit q.ulevel PERM_BASIC && hasBit q.ulevel PERM_LOGINOK) then false
+  else ((parseBMList users bm).take 4).contains q.uid
+
+/-- the recorded exception to "shared copy = record": a hidden board created by a caller who is neither sysop
+nor one of its (cached) moderators gets BRD_POSTMASK in the shared copy only. -/
+def postMaskWritten (users : List Bytes) (q : Req) : Bool :=
+  hasBit (buildAttr q) BRD_HIDE && !hasBit q.ulevel PERM_SYSOP && !callerIsMod users q (sanitizeBMs users q.bms)
 
 /-! ### well-formed states -/
 
